@@ -458,6 +458,10 @@ public:
     {
       return; // silent no-op on absent key
     }
+    if (isExpiredLocked(key))
+    {
+      return; // expired-not-yet-evicted: absent, like on every read path
+    }
     startTtlOrCleanup(lock);
 
     cancelTimerLocked(key);
@@ -528,6 +532,10 @@ public:
     if (_expiry.find(key) == _expiry.end())
     {
       return; // already permanent
+    }
+    if (isExpiredLocked(key))
+    {
+      return; // expired-not-yet-evicted: absent, must not come back to life
     }
 
     cancelTimerLocked(key);
@@ -1009,6 +1017,15 @@ private:
         delay, [this, keyCopy, idHolder]() { evictionCallback(keyCopy, idHolder); });
     *idHolder = id; // published under _mutex; the closure reads it only under _mutex
     return id;
+  }
+
+  /// \brief True if key has an expiry that has already passed but the eviction
+  /// worker has not removed it yet. Such a key is absent for every caller.
+  /// Caller holds _mutex.
+  bool isExpiredLocked(const std::string &key) const
+  {
+    auto eit = _expiry.find(key);
+    return eit != _expiry.end() && eit->second.expiry <= std::chrono::system_clock::now();
   }
 
   void cancelTimerLocked(const std::string &key)
